@@ -455,7 +455,24 @@ func histTerm(P int, tracing bool, lims [3]int, tbl *snapTable, hist, rereads []
 
 // issue performs one call with its history records. End-while-panicking is recorded as the End call
 // wrapped in a pseudo AddEvent call (id panicBase+id) standing for the exception event End records.
+const probeBase = 2000
+
+// probeAfterEnd: in the racing fragments every End caller (winner or not) asks IsRecording right after ITS
+// OWN End returned; recorded as call probeBase+id.
+var probeAfterEnd = true
+
 func issue(tr trace.Tracer, sp trace.Span, id int, o op, gate *atomic.Bool) []rec {
+	rs := issue1(tr, sp, id, o, gate)
+	if probeAfterEnd && id < panicBase && (o.Kind == opEnd || o.Kind == opEndPanic) {
+		q := op{Kind: opIsRec}
+		c := rec{Seq: seq.Add(1), Kind: 'C', T: probeBase + id, Op: q}
+		ret := sp.IsRecording()
+		rs = append(rs, c, rec{Seq: seq.Add(1), Kind: 'R', T: probeBase + id, Op: q, Ret: ret})
+	}
+	return rs
+}
+
+func issue1(tr trace.Tracer, sp trace.Span, id int, o op, gate *atomic.Bool) []rec {
 	if o.Kind == opEndPanic {
 		ev := op{Kind: opEvent}
 		a := rec{Seq: seq.Add(1), Kind: 'C', T: panicBase + id, Op: ev}
@@ -647,7 +664,7 @@ func seqCase(w *vgen.Writer, r *vgen.Rand, tracing bool, P int, ops []op, kind s
 		sp, st := e.startSpan()
 		var calls []rec
 		for i, o := range ops {
-			calls = append(calls, issue(e.tr, sp, i, o, nil)...)
+			calls = append(calls, issue1(e.tr, sp, i, o, nil)...)
 		}
 		hist, tbl, rereads, hdesc, bad := finish(st, calls, lims)
 		desc["history"] = hdesc
@@ -871,6 +888,13 @@ func stormLoop(w *vgen.Writer, r *vgen.Rand, tracing bool, trials int, kind stri
 					}
 				}
 				odd := nd != P || distinct > 1
+				for g := 0; g < G && !odd; g++ {
+					for _, rc := range recs[g][i] {
+						if rc.Kind == 'R' && rc.T >= probeBase && rc.Ret {
+							odd = true // IsRecording answered true right after this caller's own End returned
+						}
+					}
+				}
 				if odd {
 					anomalous++
 				}
@@ -973,6 +997,9 @@ func main() {
 					ops := make([]op, n)
 					for j := range ops {
 						ops[j] = genOp(r, 3)
+						if j > 0 && ops[j-1].Kind == opEnd && r.Chance(2, 3) {
+							ops[j] = op{Kind: opIsRec} // ask right after an End returned
+						}
 					}
 					seqCase(w, r, tracing, r.Intn(4), ops, "seq", genLimits(r))
 				}
